@@ -133,6 +133,12 @@ func C12() int {
 					return
 				}
 				ic, oc := strings.Split(in.S, "."), strings.Split(e.S, ".")
+				for k := range ic {
+					// "$cmd" and "cmd" are one name as far as pseudonyms go (a leading '$' does not change the result, C13)
+					if t := strings.TrimLeft(ic[k], "$"); t != "" {
+						ic[k] = t
+					}
+				}
 				if len(ic) != len(oc) {
 					c.Violation("not-componentwise|"+sig, fmt.Sprintf("%q at %s has %d dot-separated components but its replacement %q has %d", in.S, jt.PathStr(path), len(ic), trunc(e.S, 80), len(oc)), replayOf(snW, map[string]any{"leaf": jt.PathStr(path)}))
 					return
